@@ -6,6 +6,8 @@ import shutil
 import tempfile
 
 import kiwipy
+import uuid
+
 import plumpy
 from plumpy import communications, futures, loaders
 from plumpy import process_comms as pc
@@ -30,7 +32,7 @@ RULE = ('histories of 2-6 tasks from {create(persist), launch(persist, nowait), 
         '>=1 task was honoured and the model predicted a reply')
 RULE += ('; also: task types resembling launcher attributes, processes failing after recording a result, unpicklable processes, a second launcher on the same persister, tags never saved, a launcher built outside the serving loop')
 ASSUMPTIONS = ['the RabbitMQ transport is replaced by the in-process communicator of pv/comm.py', 'errors may arrive wrapped in RemoteException']
-REQUIRED = ['unsaveable_persist_tasks', 'second_launcher_continues', 'late_failures', 'tasks/create', 'tasks/launch', 'tasks/continue', 'tasks/bogus', 'rejected', 'persisted_checks', 'nowait_replies', 'wait_replies', 'error_replies',
+REQUIRED = ['paused_at_start_played', 'unknown_pid_kinds/str', 'unknown_pid_kinds/int', 'unknown_pid_kinds/UUID', 'unsaveable_persist_tasks', 'second_launcher_continues', 'late_failures', 'tasks/create', 'tasks/launch', 'tasks/continue', 'tasks/bogus', 'rejected', 'persisted_checks', 'nowait_replies', 'wait_replies', 'error_replies',
             'route/direct', 'route/thread', 'route/async', 'persister/none', 'persister/mem', 'persister/pickle', 'persister/failing', 'loader/custom',
             'loader/custom_ctx', 'continued_from_tag', 'traces_checked', 'killed_replies', 'launcher_built_elsewhere', 'absent_tag_with_untagged_checkpoint', 'counted_persister']
 BOUNDS = {'quick': '400 histories', 'thorough': '6000 histories'}
@@ -43,6 +45,8 @@ PROGS = {
     'fails_key': {'steps': [S(['cont', [], {}], sync=True), S(['raise', 'key:task-prog-fails'], yields=1)]},  # fails with a KeyError of its own
     # records its outputs and result, then fails in the hook called after FINISHED was entered: ends EXCEPTED
     'unpicklable': {'steps': [S(['cont', [1], {}], yields=1, fx=[(0, ['out', 'o', 1])]), S(['value', 5], sync=True)], 'unpicklable': True},
+    # pauses itself when it is initialised (it waits for a go-ahead): launched without waiting, its id is the reply all the same
+    'pausedstart': {'steps': [S(['cont', [1], {}], yields=1, fx=[(0, ['out', 'o', 1])]), S(['value', 5], sync=True)], 'paused_start': True},
     'latefail': {'steps': [S(['cont', [2], {}], yields=1, fx=[(0, ['out', 'o', 3])]), S(['value', 7], sync=True)], 'late_fail': True},
 }
 
@@ -54,6 +58,16 @@ class Unpicklable(programs.ProgBase):
     def __init__(self, *args, **kwargs):
         super().__init__(*args, **kwargs)
         self.hook = lambda: None
+
+
+class PausedStart(programs.ProgBase):
+    def init(self):
+        super().init()
+        if not self.has_terminated():
+            self.pause('waiting for the go-ahead')
+
+
+generated.register(PausedStart, 'PausedStart')
 
 
 class LateFail(programs.ProgBase):
@@ -90,11 +104,17 @@ def gen_cases(tier, seed):
         for _ in range(rng.randint(2, 6)):
             r = rng.random()
             prog = rng.choice(sorted(PROGS))
+            if prog == 'pausedstart' and not r < 0.55:
+                prog = 'plain'
+            if r < 0.3 and prog == 'pausedstart':
+                r = 0.4  # (only ever launched, not waited for and not persisted)
             if r < 0.3:
                 hist.append(['create', prog, rng.random() < 0.7])
                 created += 1
             elif r < 0.55:
                 op = ['launch', prog, rng.random() < 0.5, rng.random() < 0.5]
+                if prog == 'pausedstart':
+                    op = ['launch', prog, False, True]
                 if prog == 'waits' and not op[3] and rng.random() < 0.5:
                     op.append('kill')  # the process is killed while the (waited) task waits for it
                 hist.append(op)
@@ -184,7 +204,7 @@ def run_case(case):
             tctl = pc.RemoteProcessThreadController(base)
             actl = pc.RemoteProcessController(base)
             programs.INSTANCES.clear()
-            classes = {k: programs.program_class(v, LateFail if v.get('late_fail') else (Unpicklable if v.get('unpicklable') else None)) for k, v in PROGS.items()}
+            classes = {k: programs.program_class(v, LateFail if v.get('late_fail') else (Unpicklable if v.get('unpicklable') else (PausedStart if v.get('paused_start') else None))) for k, v in PROGS.items()}
             made = []  # per create/launch task: {'pid', 'prog', 'persisted'}
             can_persist = case['persister'] in ('mem', 'pickle')
 
@@ -237,6 +257,11 @@ def run_case(case):
             def finish_all():
                 """Let every launched process run to completion (the model says launch/continue run to completion)."""
                 for _ in range(40):
+                    drv.pump()
+                    for p in list(programs.INSTANCES):
+                        if p.paused and not p.has_terminated() and p not in idle and getattr(p, '_pv_started', True):
+                            obs['paused_at_start_played'] = obs.get('paused_at_start_played', 0) + 1
+                            p.play()  # (the go-ahead for a process that paused itself when it was initialised)
                     drv.pump()
                     live = [p for p in list(programs.INSTANCES) if not p.has_terminated() and p.state == ps.ProcessState.WAITING and getattr(p, '_pv_started', True)]
                     woke = False
@@ -343,7 +368,12 @@ def run_case(case):
                 if kind == 'continue':
                     ref, tag, nowait = op[1], op[2], op[3]
                     target = made[ref] if ref != 'unknown' and ref < len(made) else None
-                    pid = target['pid'] if target and target['pid'] is not None else 987654
+                    # (a process nobody knows: its id is an integer, a string or a UUID -- the kinds of id an application may use)
+                    unknown_pid = [987654, 'calc-17', uuid.UUID(int=77)][len(made) % 3]
+                    obs['unknown_pid_kinds'] = obs.get('unknown_pid_kinds', {})
+                    if not (target and target['pid'] is not None):
+                        obs['unknown_pid_kinds'][type(unknown_pid).__name__] = 1
+                    pid = target['pid'] if target and target['pid'] is not None else unknown_pid
                     have = (repr(pid), tag) in _keys(persister) if can_persist else False
                     if tag == 't' and target and target.get('persisted') and can_persist and not have:
                         # take the second checkpoint from a partly run copy of the created process (harness side)
